@@ -112,6 +112,7 @@ structure Fut where
   phase : FPhase := .absent
   busy : Bool := false
   wr : Bool := false           -- WriteFuture / ReadFuture
+  bo : Bool := false           -- ghost: driven by the harness `block_on` (waker = unpark) rather than polled manually
   deriving DecidableEq, Repr
 
 structure State where
@@ -261,17 +262,17 @@ def callStep (cfg : Cfg) (s : State) (t : Tid) (op : ROp) : State :=
     else withPc s t (.ret .invalid)
   | .readAsync f =>
     if (s.fut f).phase = .absent ∧ (s.fut f).busy = false then
-      { s with fut := upd s.fut f { phase := .fresh, busy := true, wr := false }
+      { s with fut := upd s.fut f { phase := .fresh, busy := true, wr := false, bo := true }
                th := upd s.th t { th with pc := .taLoad .asyncFirst, wr := false, cur := some f, blockOn := true } }
     else withPc s t (.ret .invalid)
   | .writeAsync f =>
     if (s.fut f).phase = .absent ∧ (s.fut f).busy = false then
-      { s with fut := upd s.fut f { phase := .fresh, busy := true, wr := true }
+      { s with fut := upd s.fut f { phase := .fresh, busy := true, wr := true, bo := true }
                th := upd s.th t { th with pc := .taLoad .asyncFirst, wr := true, cur := some f, blockOn := true } }
     else withPc s t (.ret .invalid)
   | .newFut f excl =>
     if (s.fut f).phase = .absent ∧ (s.fut f).busy = false then
-      withPc { s with fut := upd s.fut f { phase := .fresh, busy := false, wr := excl } } t (.ret .ok)
+      withPc { s with fut := upd s.fut f { phase := .fresh, busy := false, wr := excl, bo := false } } t (.ret .ok)
     else withPc s t (.ret .invalid)
   | .poll f =>
     if (s.fut f).busy then withPc s t (.ret .invalid)
